@@ -21,7 +21,8 @@ def sections(ctx, ok):
     rc, out, _ = vlib.sh([exe, ctx.repo, os.path.join(ctx.work, "LockFacts.v")], timeout=120)
     if rc != 0:
         raise vlib.Broken("lockfacts failed: " + out[-1500:])
-    shutil.copy(os.path.join(tooldir, "AnnSections.v"), os.path.join(ctx.work, "AnnSections.v"))
+    for f in ("AnnSections.v", "AnnSkeleton.v"):
+        shutil.copy(os.path.join(tooldir, f), os.path.join(ctx.work, f))
     if not ok:
         return
     ctx.obligations += 2
@@ -30,26 +31,50 @@ def sections(ctx, ok):
     if rc != 0:
         raise vlib.Broken("generated LockFacts.v does not compile: " + out[-1500:])
     rc, out, _ = vlib.sh(coqc + ["AnnSections.v"], cwd=ctx.work)
-    ctx.checker_cmds.append("tools/lockfacts $REPO .work/C13/LockFacts.v && coqc .work/C13/AnnSections.v  (announcer methods are single critical sections)")
+    ctx.checker_cmds.append("tools/lockfacts $REPO .work/C13/LockFacts.v && coqc .work/C13/AnnSections.v .work/C13/AnnSkeleton.v  "
+                            "(announcer methods are single critical sections; their loops are the transcribed ones)")
     if rc != 0:
         m = re.search(r'D_bad =\s*(.*?)\n\s+: ', out, re.S)
         bad = " ".join(m.group(1).split()) if m else "?"
-        k = re.search(r'D_skeleton_diffs =\s*(.*?)\n\s+: ', out, re.S)
-        diffs = " ".join(k.group(1).split()) if k else None
-        if diffs not in (None, "[]"):
-            ctx.proof_broken = ("announcer_skeleton_matches fails: the loops of %s in %s/internal/layer2/announcer.go (which loops there are and whether they are left by "
-                                "return / break / continue) are no longer the ones Model/Announcer*.v was transcribed from (Model/AnnouncerSkel.v)" % (diffs, ctx.repo))
-        else:
-            ctx.proof_broken = ("announcer_methods_are_critical_sections fails on the lock facts generated from %s/internal/layer2/announcer.go: "
-                                "not a single critical section of Announce.RWMutex: %s" % (ctx.repo, bad if m else out[-600:]))
-    elif out.count("Closed under the global context") != 2:
+        ctx.proof_broken = ("announcer_methods_are_critical_sections fails on the lock facts generated from %s/internal/layer2/announcer.go: "
+                            "not a single critical section of Announce.RWMutex: %s" % (ctx.repo, bad if m else out[-600:]))
+    elif out.count("Closed under the global context") != 1:
         raise vlib.Broken("AnnSections.v: not closed: " + out[-800:])
     else:
-        ctx.discharged += 2
-        ctx.theorems += ["announcer_methods_are_critical_sections", "announcer_skeleton_matches"]
+        ctx.discharged += 1
+        ctx.theorems += ["announcer_methods_are_critical_sections"]
+    # the structural tie of the transcription: decided at the END of run() (skeleton_verdict), together with the
+    # behavioural correspondence of this run
+    rc, out, _ = vlib.sh(coqc + ["AnnSkeleton.v"], cwd=ctx.work)
+    if rc != 0:
+        k = re.search(r'D_skeleton_diffs =\s*(.*?)\n\s+: ', out, re.S)
+        diffs = re.findall(r'"([^"]+)"', k.group(1)) if k else []
+        if not diffs:
+            raise vlib.Broken("AnnSkeleton.v does not compile: " + out[-1200:])
+        skel["diffs"] = diffs
+    elif out.count("Closed under the global context") != 1:
+        raise vlib.Broken("AnnSkeleton.v: not closed: " + out[-800:])
+    else:
+        ctx.discharged += 1
+        ctx.theorems += ["announcer_skeleton_matches"]
+
+
+# functions of announcer.go -> theorems of Properties/C13.v that speak about their TRANSCRIPTION (control structure);
+# the C13_x_* / C13_j_* theorems run the extended machines built from all of them
+TRANSCRIPTION_THEOREMS = {
+    "Announce.SetBalancer": ["C13_j_groups", "C13_j_same_services", "C13_j_prefix_refuted"],
+    "Announce.DeleteBalancer": ["C13_delete_transcription", "C13_delete_return_refuted", "C13_j_groups", "C13_j_same_services"],
+    "Announce.gratuitous": ["C13_gratuitous_transcription", "C13_gratuitous_return_refuted"],
+    "Announce.shouldAnnounce": ["C13_answer_iff", "C13_drop_reason"],
+    "Announce.spamLoop": ["C13_x_sent_counts_repetitions"],
+}
+X_THEOREMS = ["C13_x_state", "C13_x_unsolicited_sound", "C13_x_withdraw_last", "C13_x_sent_counts_repetitions",
+              "C13_x_ndp_groups_balanced", "C13_x_ndp_groups_balanced_prefix_refuted", "C13_x_late_responder_joined"]
+skel = {"diffs": []}
 
 
 def run(ctx):
+    skel["diffs"] = []
     ok = ctx.coq_build(COQ_FILES)
     ctx.coq_theorems("Properties/C13.v", CLOSURE)
     thorough = ctx.tier == "thorough"
@@ -151,6 +176,7 @@ def run(ctx):
 
     # the REAL interface rescan on a veth pair (needs CAP_NET_ADMIN; counted as skipped otherwise)
     xcases = []
+    xm, jm = [], []
 
     def rescan(seed, tag):
         recs, okrun, log = ctx.go_harness(PKG, FILES, "TestVerifRescan$", seed=seed, tag=tag, timeout=300)
@@ -210,12 +236,49 @@ def run(ctx):
                 return
         concurrent(6, ctx.seed * 1000 + 3, "sc", race=True)
 
+    # ---- verdict on the structural tie (announcer_skeleton_matches).  The loops of a transcribed method differ from
+    # the ones the model was transcribed from.  That alone is "a tie broke, no failing input".  When the BEHAVIOURAL
+    # correspondence of this run (every announcer history against Model/Announcer*.v incl. refcounts and group
+    # membership, the concurrent runs, rescan and join-failure histories, plus an extra batch of histories run now)
+    # passes completely, the code still behaves as the model and the state-machine theorems still decide C13: the stale
+    # transcription is reported in the evidence.  It stays a violation when the behavioural part fails or could not run.
+    stale_note = None
+    if skel["diffs"]:
+        extra_mism = []
+        if ok and not ctx.violations and not ctx.corr_broken and not ctx.proof_broken and not ctx.replay_in:
+            before = len(allcases["history"])
+            for k in range(2):
+                sequential(100, ctx.seed * 1000 + 71 + k, "k%d" % k)
+            extra = allcases["history"][before:]
+            if extra and not ctx.violations:
+                terms = [re.sub(r"^\(mk_acase \d+%N", "(mk_acase %d%%N" % i, c["coq"]) for i, c in enumerate(extra)]
+                extra_mism = ctx.coq_cases("Run_Announcer", "acase", terms, shard=40)
+        groups_seen = st.get("kernel_membership_checked", 0) > 0 and st.get("whitebox_skipped:solicitedNodeGroups", 0) == 0
+        behavioural_ok = (ok and hist and conc and not mism and not tm and not xm and not jm and not extra_mism
+                          and not ctx.violations and not ctx.corr_broken and not ctx.proof_broken
+                          and st.get("whitebox_skipped:ipRefcnt", 0) == 0 and groups_seen)
+        untied = sorted({t for f in skel["diffs"] for t in TRANSCRIPTION_THEOREMS.get(f, [])} | set(X_THEOREMS))
+        if behavioural_ok:
+            stale_note = ("stale transcription: the loops of %s in internal/layer2/announcer.go are no longer the ones Model/Announcer*.v was transcribed from "
+                          "(Model/AnnouncerSkel.v; announcer_skeleton_matches NOT discharged), while the behavioural correspondence of this run passes completely "
+                          "(%d histories incl. refcount / group-membership observables, %d concurrent runs, %d rescan and %d join-failure histories, 0 mismatches). "
+                          "Theorems whose link to the code now rests on that correspondence alone, no longer on the structural tie: %s"
+                          % (skel["diffs"], len(allcases["history"]), len(conc), len(xcases), len(jcases), ", ".join(untied)))
+        elif not ctx.proof_broken:
+            ctx.proof_broken = ("announcer_skeleton_matches fails: the loops of %s in %s/internal/layer2/announcer.go (which loops there are, whether they are left by "
+                                "return / break / continue, the calls the model gives them) are no longer the ones Model/Announcer*.v was transcribed from "
+                                "(Model/AnnouncerSkel.v), and the behavioural correspondence of this run does not pass completely or could not run "
+                                "(theorems concerned: %s)" % (skel["diffs"], ctx.repo, ", ".join(untied)))
+
     distinct = len({json.dumps(c["in"], sort_keys=True) for c in hist if
                     any(o["kind"] == "set" for o in c["in"]["ops"]) and any(o["kind"] == "del" for o in c["in"]["ops"])})
     ndp = st.get("ndp_responders", 0) > 0
     ctx.cov["correspondence"] = {"histories": len(hist), "history_mismatches": len(mism), "rescan_histories": len(xcases), "join_failure_histories": len(jcases),
                                  "concurrent_runs": len(conc), "concurrent_mismatches": len(tm),
                                  "generator_counters": st, "ndp_sockets_available": ndp}
+    if stale_note:
+        ctx.cov["correspondence"]["stale_transcription"] = stale_note
+        ctx.assumptions += [stale_note]
     ctx.trusted += [
         "model covers internal/layer2: Announce.SetBalancer/DeleteBalancer/shouldAnnounce/gratuitous/AnnounceName, IPAdvertisement.matchInterface, "
         "arpResponder.processRequest (decision after a successful read), ndpResponder.Watch/Unwatch and the processRequest decision; "
@@ -230,7 +293,7 @@ def run(ctx):
     evaluations = len(hist) + len(conc)
     ctx.finish(evaluations, distinct,
                "random histories (6-15 ops quick, 10-39 thorough) over 4 services x 7 addresses (2 IPv6 addresses in one solicited-node group) x 5 interface names; "
-               "after every op: 9x5 answer matrix, refcounts, group counters, gratuitous on fresh/stale/foreign advertisements, 5 ops x 4 destinations x 5 targets ARP packets on 3 responders; "
+               "after every op: 9x5 answer matrix, refcounts, group counters, gratuitous on fresh/stale/foreign advertisements, ARP frames on 3 responders through the real processRequest: requests with every Ethernet destination x every ARP target hardware address (4 x 4, chosen independently) x 5 targets, non-requests 4 ops x 4 destinations x 2 targets; the drop label is accepted when it is one of the applicable reasons (C13_arp_label_free), answered / not answered and the reply frames are exact; "
                "non-trivial = history with at least one announce and one withdraw; distinct by JSON of the op list; "
                "concurrent runs: 4 requester goroutines during 150/600 updates, each answer explained by a prefix in its window",
                [c["in"] for c in hist[:3]], search=search)
